@@ -678,6 +678,10 @@ func (e *Enc) wfInto(s *State, t types.Type, L []string, fs *[]string, depth int
 		if e.objTypes != nil {
 			// (the nil pointer points into no object: objtype(0) is left unconstrained)
 			*fs = append(*fs, or(eq(L[0], "0"), e.objTypes.ptrFact(e.l, u.Elem(), L[0])))
+			// a *T into an object allocated AS a T points at its start
+			if tag, ok := e.objTypes.structTag(u.Elem()); ok {
+				*fs = append(*fs, implies(eq("(objtype "+L[0]+")", tag), and(eq(L[1], bv64(0)), eq(L[2], bv64(0)))))
+			}
 		}
 		return 3
 	case *types.Slice:
